@@ -492,6 +492,52 @@ def count_consulted_rule(res, fx, rule='COUNT-CONSULTED', floor=10):
         raise AnalysisBroken('%s: only %d DataIO transfer calls found in iogateway/' % (rule, n))
 
 
+def byte_view_rule(res, fx, rule='BYTE-VIEW'):
+    """an integer has one byte order in memory and (in general) another one on the wire: a value must not be used through both"""
+    res.rule(rule, 'in the gateway classes an integer local that is read as raw bytes (reinterpret_cast / C cast of its address to a byte pointer, memcpy from its address) is not also written with a '
+                   'byte-order converting writer (DataFlattener::WriteInt16/32/64 of a fixed-endian flattener, EndianConverter::Export): the two orders differ on one of the host byte orders', floor=1)
+    n = n_written = 0
+    WR = re.compile(r'(DataFlattener\w*::WriteInt(16|32|64)s?|EndianConverter::Export|::muscleCopyOut)$')
+    for f in sorted((f for f in fx.funcs.values() if f.full and f.file.startswith('iogateway/')), key=lambda f: (f.file, f.line)):
+        views = {}
+        for x in f.walk():
+            if x['k'] in ('CXXReinterpretCastExpr', 'CStyleCastExpr') and re.search(r'(unsigned char|uint8|char|uint8_t) ?(const)? ?\*$', x.type().replace('const ', '').strip() + ''):
+                o = A.strip_casts(x['ch'][0]) if x['ch'] else None
+                if o is not None and o['k'] == 'UnaryOperator' and o.get('op') == '&':
+                    v = A.strip_casts(o['ch'][0])
+                    if v['k'] == 'DeclRefExpr' and v.get('d') is not None and re.search(r'^(const )?(unsigned |signed )?(u?int(16|32|64)(_t)?|short|int|long|long long)( const)?$', v.type().strip()):
+                        views.setdefault(v['d'], []).append(x)
+        INT = r'^(const )?(unsigned |signed )?(u?int(16|32|64)(_t)?|short|int|long|long long)( const)?$'
+        for x in f.walk():
+            # memcpy(dst, &x, n) / memcpy(&x, src, n): the bytes of x as they lie in memory
+            if x.is_call() and (x.get('q') or '').split('::')[-1] in ('memcpy', 'memmove', 'memcmp') and len(x.args()) >= 2:
+                for a in x.args()[:2]:
+                    o = A.strip_casts(a)
+                    if o['k'] == 'UnaryOperator' and o.get('op') == '&':
+                        v = A.strip_casts(o['ch'][0])
+                        if v['k'] == 'DeclRefExpr' and v.get('d') is not None and re.search(INT, v.type().strip()) and not v.get('param'):
+                            views.setdefault(v['d'], []).append(o)
+        written = {}
+        for c in f.walk():
+            if c.is_call() and WR.search(c.get('q') or '') and 'Native' not in (c.get('q') or ''):
+                for a in c.args():
+                    a0 = A.strip_casts(a)
+                    if a0['k'] == 'DeclRefExpr' and a0.get('d') is not None and re.search(INT, a0.type().strip()):
+                        written.setdefault(a0['d'], []).append(c)
+        n_written += len(written)
+        for d, vs in sorted(views.items()):
+            n += 1
+            wr = written.get(d, [])
+            name = [y.get('n') for y in vs[0].walk() if y['k'] == 'DeclRefExpr' and y.get('d') == d][0]
+            res.ob(rule, f.where(vs[0]), '%s: `%s` is used through its bytes in memory only' % (f.q.split('::')[-1], name), not wr, function=f.q, key='%s|%s|%s' % (rule, f.q, name),
+                   message='%s writes `%s` with %s (a fixed wire byte order) and also uses the bytes of `%s` as they lie in memory (line %s): on a host whose byte order differs from the wire order the two '
+                           'sequences are each other\'s reverse — the peer, which sees the wire bytes, cannot undo what was done with the memory bytes'
+                           % (f.q, name, (wr[0].get('q') or '').split('::')[-1] if wr else '', name, vs[0].get('l')))
+    res.info(rule, 'iogateway/', '%d integer local(s) viewed as bytes, %d written with a byte-order converting writer' % (n, n_written))
+    if n + n_written < 1:
+        raise AnalysisBroken('%s: neither a byte view of an integer local nor an endian-converting write of one found in iogateway/' % rule)
+
+
 def run(res, tier):
     units = [u for u in library_units() if u.startswith('iogateway/')] + ['lang/c/minimessage/MiniMessageGateway.c', 'lang/c/micromessage/MicroMessageGateway.c']
     fx = common.load_units(res, units, fn_regex=r'.*(IOGateway|^MGDo|^UGDo|^MG|^UG).*')
@@ -664,6 +710,7 @@ def run(res, tier):
         res.ob('FRAME', hs[0].where(), 'MessageIOGateway::GetHeaderSize() == 8', v == 8, how=str(v), function=hs[0].q, key='FRAME|GetHeaderSize', message='GetHeaderSize() is %s, the frame is two 32-bit words' % v)
     resume_offset_rule(res, fx)
     count_consulted_rule(res, fx)
+    byte_view_rule(res, fx)
     stale_cursor_rule(res, fx)
     queue_ends_rule(res, fx)
     codec_direction_rule(res, fx)
